@@ -50,4 +50,8 @@ theorem toLe_getElem (k n j : Nat) (h : j < k) :
       simp only [toLe, List.getElem?_cons_succ]
       rw [ih (n / 256) j (by omega), Nat.pow_succ, Nat.div_div_eq_div_mul, Nat.mul_comm]
 
+theorem zeros_get? (n i : Nat) (h : i < n) : (zeros n)[i]? = some 0 := by
+  unfold zeros
+  rw [List.getElem?_replicate]; simp [h]
+
 end Bytes
